@@ -80,6 +80,11 @@ type chunkPayloadData struct {
 
 	head *chunkPayloadData // link to the head of the fragment
 
+	// stream is the Stream object that queued this chunk (nil for chunks that were not
+	// created by Stream.WriteSCTP). The bytes are released to it when the chunk is
+	// acknowledged, whatever is registered under the stream identifier by then.
+	stream *Stream
+
 	rackPrev   *chunkPayloadData
 	rackNext   *chunkPayloadData
 	rackInList bool
